@@ -24,6 +24,7 @@ CONSTANTS
   VOID,           \* void_after - as_of, 1000 s
   Deltas,         \* tick sizes explored
   Bounds,         \* bound values a synchronised report may carry
+  Reports,        \* the chrony reports the environment may answer with (AllReports, or representatives)
   PhcBounds,      \* values the PHC error-bound file may hold
   PhcConfigured,  \* BOOLEAN: daemon started with --phc-ref-id / --phc-interface
   Drift,          \* max_drift_ppb given to the updater
@@ -70,7 +71,7 @@ Classify(leap, refPos) ==
 \* representative leap codes: 0,1,2 synchronised; 3 unsynchronised; 4 stands for every other value
 Leaps == {0, 1, 2, 3, 4}
 RefPos == {"fresh", "stale", "future"}
-Reports == [kind : {"reply"}, leap : Leaps, refPos : RefPos, b : Bounds, refMatch : BOOLEAN]
+AllReports == [kind : {"reply"}, leap : Leaps, refPos : RefPos, b : Bounds, refMatch : BOOLEAN]
 
 \* ------------------------------------------------------------------ world
 Tick(d) ==
@@ -117,18 +118,17 @@ PollQuery ==
   /\ UNCHANGED <<pAsOf, polls>> /\ PU
 
 WithinGrace == now - lastGood < GRACE
-Ghost == [at |-> now, ever |-> everGood, since |-> now - lastGoodReal]
 
 \* message selection, PHC read included, and the send
 PollDecide ==
   /\ alive /\ ppc = "decide"
   /\ \E m \in
        IF pReply = NoReply
-       THEN { [kind |-> IF WithinGrace THEN "NoReplyGrace" ELSE "NoReply", rep |-> NoReply, phc |-> 0, asOf |-> 0, g |-> Ghost] }
+       THEN { [kind |-> IF WithinGrace THEN "NoReplyGrace" ELSE "NoReply", rep |-> NoReply, phc |-> 0, asOf |-> 0] }
        ELSE IF PhcConfigured /\ pReply.refMatch
-       THEN { [kind |-> "Data", rep |-> pReply, phc |-> v, asOf |-> pAsOf, g |-> Ghost] : v \in PhcBounds }        \* PHC file read
-            \cup { [kind |-> IF WithinGrace THEN "PhcFailGrace" ELSE "PhcFail", rep |-> pReply, phc |-> 0, asOf |-> 0, g |-> Ghost] }   \* unreadable
-       ELSE { [kind |-> "Data", rep |-> pReply, phc |-> 0, asOf |-> pAsOf, g |-> Ghost] } :
+       THEN { [kind |-> "Data", rep |-> pReply, phc |-> v, asOf |-> pAsOf] : v \in PhcBounds }        \* PHC file read
+            \cup { [kind |-> IF WithinGrace THEN "PhcFailGrace" ELSE "PhcFail", rep |-> pReply, phc |-> 0, asOf |-> 0] }   \* unreadable
+       ELSE { [kind |-> "Data", rep |-> pReply, phc |-> 0, asOf |-> pAsOf] } :
        mbox' = Append(mbox, m)
   /\ ppc' = "sleep" /\ pReply' = NoReply
   /\ UNCHANGED <<alive, starts, pAsOf, lastGood, ubound, uasOf, fsm, measured, pub, npub, everGood, lastGoodReal, lastSync, lastOut, polls, ticks, now>>
@@ -195,9 +195,10 @@ NoTrustBeforeMeasure == (alive /\ lastOut.kind # "none" /\ pub.status # "U") => 
 
 \* C13: outages and PHC failures degrade on schedule
 GraceSchedule ==
-  \A i \in 1..Len(mbox) : LET m == mbox[i] IN
-    /\ (m.kind \in {"NoReplyGrace", "PhcFailGrace"} => (m.g.ever /\ m.g.since < GRACE))
-    /\ (m.kind \in {"NoReply", "PhcFail"} => (~m.g.ever \/ m.g.since >= GRACE))
+  [][Len(mbox') = Len(mbox) + 1 =>
+       LET m == mbox'[Len(mbox')] IN
+         /\ (m.kind \in {"NoReplyGrace", "PhcFailGrace"} => (everGood /\ now - lastGoodReal < GRACE))
+         /\ (m.kind \in {"NoReply", "PhcFail"} => (~everGood \/ now - lastGoodReal >= GRACE))]_vars
 PhcRule ==
   \A i \in 1..Len(mbox) : LET m == mbox[i] IN
     /\ (m.kind = "Data" => (m.phc # 0 => (PhcConfigured /\ m.rep.refMatch)))
@@ -205,7 +206,7 @@ PhcRule ==
     /\ (m.kind \in {"NoReply", "NoReplyGrace"} => m.rep = NoReply)
 
 \* C12 (poller half): the as-of instant of a message never postdates the reply it belongs to
-AsOfBeforeReply == \A i \in 1..Len(mbox) : mbox[i].kind = "Data" => mbox[i].asOf <= mbox[i].g.at - mbox[i].g.since
+AsOfBeforeReply == (alive /\ ppc = "decide" /\ pReply # NoReply) => pAsOf <= lastGoodReal
 
 TypeOK ==
   /\ ppc \in {"top", "query", "decide", "sleep"}
